@@ -114,7 +114,11 @@ def fold(pid, mod, tier, seed, outs, wall) -> int:
 
     post = getattr(mod, 'postcheck', None)
     if post is not None:
-        violations += post(counters, maxima, sets)
+        pv = post(counters, maxima, sets)
+        violations += pv
+        if pv and os.environ.get('KVERIF_SITE_LOG'):
+            with open(os.environ['KVERIF_SITE_LOG'], 'a') as f:
+                f.write(f'{pid.lower()}.py:postcheck\n')
     for name in getattr(mod, 'REQUIRED', []):
         if counters.get(name, 0) <= 0:
             inconclusive.append(f'deciding monitor "{name}" was evaluated 0 times')
